@@ -209,8 +209,11 @@ public:
 
 		// can't std::forward<Args>(args) in GetEvent::getEvent because the pass by value arguments will be moved to getEvent
 		// then the other std::forward<Args>(args) to directDispatch will get empty values.
+		// The event must be computed before the arguments are forwarded: the evaluation order of
+		// function arguments is unspecified, a by-value argument may be moved before getEvent reads it.
+		const Event e = GetEvent::getEvent(args...);
 		directDispatch(
-			GetEvent::getEvent(args...),
+			e,
 			std::forward<Args>(args)...
 		);
 	}
@@ -222,8 +225,10 @@ public:
 
 		using GetEvent = typename SelectGetEvent<Policies_, EventType_, HasFunctionGetEvent<Policies_, T &&, Args...>::value>::Type;
 
+		// Compute the event first, see the comment in the other dispatch overload.
+		const Event e = GetEvent::getEvent(std::forward<T>(first), args...);
 		directDispatch(
-			GetEvent::getEvent(std::forward<T>(first), args...),
+			e,
 			std::forward<Args>(args)...
 		);
 	}
